@@ -20,7 +20,7 @@ SPACE = [
     ("shell_order", ["grouped", "reversed", "interleaved", "rotated", "perm2", "perm3", "skip-first-center"]),
     ("conventions", ["own", "fchk", "molden", "wfn", "mwfn", "horton2", "cca", "orca", "scr1", "scr2"]),
     ("mo", ["restricted", "rohf", "rohf-triplet", "beta-hole", "fractional", "aminusb", "aminusb-neg", "aminusb-zero", "aminusb-balanced", "unrestricted", "unrestricted-na>nb", "unrestricted-fractional-beta", "occupied-only", "irreps", "unrestricted-occupied-only"]),
-    ("extras", ["none", "rdm-scf", "rdm-scf+spin", "rdm-post", "energy-none", "title-none", "atcharges", "mo_spin", "fortran-arrays", "strided-arrays"]),
+    ("extras", ["none", "rdm-scf", "rdm-scf+spin", "rdm-post", "energy-none", "title-none", "atcharges", "mo_spin", "mo_spin-stale", "fortran-arrays", "strided-arrays"]),
 ]
 
 CENTER_Z = [8, 1, 1, 6, 7, 3]
@@ -217,6 +217,9 @@ def build(case, target, seed=0):
         kw["one_rdms"] = rd
     elif ex == "atcharges":
         kw["atcharges"] = {"mulliken": np.linspace(-0.5, 0.5, ncenter)}
+    elif ex == "mo_spin-stale":  # labels left over from before orbitals were dropped: more labels than orbitals
+        n_old = (mo.norba if mo.kind == "restricted" else mo.norba + mo.norbb) + 29
+        kw["extra"] = {"mo_spin": np.array(([1, 2] * n_old)[:n_old])}
     elif ex == "mo_spin":  # the Multiwfn $MOSPIN labels a WFN reader stores in extra
         kw["extra"] = {"mo_spin": np.array([3] * mo.norba) if mo.kind == "restricted" else np.array([1] * mo.norba + [2] * mo.norbb)}
     data = IOData(**kw)
